@@ -12,7 +12,7 @@ import (
 
 // the symbols strings and quoted identifiers are built from (× and – are typographic aliases of
 // operators: inside a literal they are ordinary characters)
-var symbols = []string{"a", "\"", "\\", "/", "*", "'", "n", "\n", "\r", "\t", " ", "ä", "€", "×", "–"}
+var symbols = []string{"a", "\"", "\\", "/", "*", "'", "n", "\n", "\r", "\t", " ", "ä", "€", "×", "–", "\uFFFD", "😀"}
 
 var aliasRunes = map[rune]rune{'•': '*', '×': '*', '÷': '/', '–': '-', 'ˆ': '^'}
 
